@@ -258,7 +258,7 @@ func (t *Task) Execute() {
 	defer close(t.Done)
 
 	// Do some sanity checks
-	verifPoint("exec.start", t.TempDir())
+	verifPoint("exec.start", verifTaskKeys(t)...)
 	if t.tempDirsExist() {
 		t.Failf("Existing temp folders found, so existing. Clean up temporary folders (starting with %s) before restarting the workflow!", tempDirPrefix)
 	}
